@@ -263,6 +263,21 @@ def check_reexecution(acc, case, other, plan):
             job.load_string(text)
             previous_stopped = False
             continue
+        if step[0] == 'reload-rejected':
+            # the job is given a text that does not compile: it has no
+            # program then (like a fresh job given that text), not the one
+            # it held before
+            job.load_string(text + '\nrepeat 2 begin on all')
+            labels.append('reload-rejected')
+            if job.program is not None:
+                acc.fail('rejected-text-left-a-program',
+                         'after load_string of a rejected text the job '
+                         'still holds a program ({} instructions)'.format(
+                             len(job.program)), payload)
+                break
+            job.load_string(text)
+            previous_stopped = False
+            continue
         if step[0] == 'stop-when-idle':
             # a stop request that arrives when no run is in progress is aimed
             # at nothing: the next run is a complete one
@@ -396,7 +411,7 @@ PLAN_STEP = st.one_of(
     st.just(['run']), st.just(['run']),
     st.tuples(st.just('stop'), st.integers(1, 6)).map(list),
     st.just(['stop-when-idle']), st.just(['run-as-agent']),
-    st.just(['reload']))
+    st.just(['reload']), st.just(['reload-rejected']))
 
 
 def run_shard(spec):
